@@ -8,6 +8,7 @@ import (
 	"os"
 	"runtime"
 	"strconv"
+	"sync/atomic"
 	"testing"
 	"testing/synctest"
 	"time"
@@ -70,8 +71,34 @@ func envInt(name string, def int64) int64 {
 	return def
 }
 
+var runProgress atomic.Int64
+
+// stallWatch kills the worker when one simulated run makes no progress in real time: every
+// goroutine of the bubble is then waiting on something the simulator does not control (a
+// channel or timer created outside the bubble, a real lock held across simulated I/O, a
+// real socket).  That is a limit of the harness, not a verdict: exit status 3.
+func stallWatch(limit time.Duration) {
+	go func() {
+		last, since := runProgress.Load(), time.Now()
+		for {
+			time.Sleep(time.Second)
+			if cur := runProgress.Load(); cur != last {
+				last, since = cur, time.Now()
+				continue
+			}
+			if time.Since(since) > limit {
+				buf := make([]byte, 1<<20)
+				n := runtime.Stack(buf, true)
+				fmt.Fprintf(os.Stderr, "STALLED: no run finished for %v of real time; the simulated clock cannot advance because a goroutine waits on something created outside the simulation\n%s\n", limit, buf[:n])
+				os.Exit(3)
+			}
+		}
+	}()
+}
+
 func execScenario(t *testing.T, sc *Scenario, i int64, keepScenario bool) (runLine, bool) {
 	t0 := time.Now()
+	defer runProgress.Add(1)
 	h, dirty := runInBubble(t, sc)
 	vs := Check(sc.Prop, h)
 	n := 0
@@ -108,6 +135,7 @@ func TestWorker(t *testing.T) {
 		w.WriteByte('\n')
 		w.Flush()
 	}
+	stallWatch(time.Duration(envInt("VERIF_STALL_S", 150)) * time.Second)
 	switch mode {
 	case "replay":
 		data, err := os.ReadFile(os.Getenv("VERIF_SCENARIO"))
